@@ -119,6 +119,8 @@ REQUIRED |= {("PSubsequence", m) for m in ("next", "reset", "init")}
 for _c in ["PReset", "PIndexOf", "PConcatenate", "PArrayIndex", "PDictKey"]:
     REQUIRED |= {(_c, "reset"), (_c, "init")}
 REQUIRED |= {("PDict", "reset")}
+REQUIRED |= {(_c, "next") for _c in ["PReset", "PIndexOf", "PConcatenate", "PDictKey"]}
+REQUIRED |= {("PPingPong", m) for m in ("next", "reset", "init")}
 
 COQ_RESERVED = {"end", "in", "let", "fun", "match", "with", "if", "then", "else", "return", "as", "at", "fix", "forall",
                 "exists", "Type", "Prop", "Set", "using", "where", "for", "cofix"}
@@ -178,11 +180,12 @@ def model_constructors(syntax_v):
 class Env:
     """symbolic state: the current terms of the object's fields and of the locals, and the fuel term for child calls"""
 
-    def __init__(self, fields, locals_, fuel):
+    def __init__(self, fields, locals_, fuel, alias=None):
         self.fields, self.locals, self.fuel = fields, locals_, fuel
+        self.alias = alias or {}        # field (type arg) used as a list: field -> the term of the list it holds (AL l)
 
     def copy(self):
-        return Env(dict(self.fields), dict(self.locals), self.fuel)
+        return Env(dict(self.fields), dict(self.locals), self.fuel, dict(self.alias))
 
     def set_field(self, name, ty, term):
         e = self.copy(); e.fields[name] = (ty, term); return e
@@ -194,6 +197,20 @@ class Env:
 def I(block, n=4):
     """the block on a new line, indented by n (layout of the generated terms only)"""
     return "\n" + " " * n + block.replace("\n", "\n" + " " * n)
+
+
+# further engine functions a method may need (a parameter of the generated definition only when it is used)
+EXTRAS = [("preset", "(preset : nat -> arg -> outcome arg)"),                 # x.reset() on an attribute
+          ("pall", "(pall : nat -> arg -> outcome (list val) * arg)"),        # x.all() on an attribute
+          ("pself", "(pself : nat -> pat -> outcome val * pat)")]             # next(self)
+
+
+def extras_sig(names):
+    return "".join(" " + sig for (n, sig) in EXTRAS if n in names)
+
+
+def extras_args(names):
+    return "".join(" " + n for (n, _) in EXTRAS if n in names)
 
 
 def is_self_attr(n):
@@ -227,9 +244,52 @@ class Method:
         self.local_names = {n.id for n in ast.walk(fn) if isinstance(n, ast.Name) and isinstance(n.ctx, ast.Store)}
         self.local_names |= {a.arg for a in fn.args.args}
         # locals used as a list (len(x), x[i]): when bound by Pattern.value(self.f) they ARE the list held by self.f
-        self.listlike = {n.value.id for n in ast.walk(fn) if isinstance(n, ast.Subscript) and isinstance(n.value, ast.Name)}
-        self.listlike |= {n.args[0].id for n in ast.walk(fn) if isinstance(n, ast.Call) and isinstance(n.func, ast.Name)
-                          and n.func.id == "len" and len(n.args) == 1 and isinstance(n.args[0], ast.Name)}
+        def child_arg(c):      # the x of Pattern.value(x) / next(x)
+            if isinstance(c, ast.Call) and not c.keywords and len(c.args) == 1 and (
+                    is_static(c.func, "Pattern", "value") or (isinstance(c.func, ast.Name) and c.func.id == "next")):
+                return c.args[0]
+            return None
+        stepped = [child_arg(c) for c in ast.walk(fn)]
+        stepped = {id(a) for a in stepped if isinstance(a, ast.Subscript)}
+        subs = [n for n in ast.walk(fn) if isinstance(n, ast.Subscript)]
+        lens = [n.args[0] for n in ast.walk(fn) if isinstance(n, ast.Call) and isinstance(n.func, ast.Name)
+                and n.func.id == "len" and len(n.args) == 1 and not n.keywords]
+        self.listlike = {n.value.id for n in subs if isinstance(n.value, ast.Name) and id(n) in stepped}
+        self.listlike |= {a.id for a in lens if isinstance(a, ast.Name)}
+        # locals used as a container VALUE (x[k] read as a value, `.. in x`, x.index(..)): Pattern.value(self.f) then also
+        # accepts a list / dict literal without patterns inside (cvalue)
+        self.container = {n.value.id for n in subs if isinstance(n.value, ast.Name) and id(n) not in stepped}
+        self.container |= {c.id for n in ast.walk(fn) if isinstance(n, ast.Compare) and len(n.ops) == 1 and isinstance(n.ops[0], (ast.In, ast.NotIn))
+                           for c in n.comparators if isinstance(c, ast.Name)}
+        self.container |= {n.func.value.id for n in ast.walk(fn) if isinstance(n, ast.Call) and isinstance(n.func, ast.Attribute)
+                           and n.func.attr == "index" and isinstance(n.func.value, ast.Name)}
+        # attributes used as a list directly (self.f[i] stepped, len(self.f)) where the model types them arg
+        self.listfields = [n.value.attr for n in subs if is_self_attr(n.value) and id(n) in stepped] + [a.attr for a in lens if is_self_attr(a)]
+        self.listfields = [a for a in dict.fromkeys(self.listfields)
+                           if a in klass.attr2field and dict(klass.fields)[klass.attr2field[a]] == "arg"]
+
+    def use(self, extra):
+        self.k.extras[self.mode].add(extra)
+        return extra
+
+    def with_listfields(self, env, body):
+        """the body under `match self_f with AL l => .. | _ => (Inexact, <state>)` for every attribute used as a list"""
+        if not self.listfields:
+            return body(env)
+        if self.mode != "next":
+            raise Reject("an attribute is used as a list outside __next__")
+        a = self.listfields[0]
+        f = self.field(a)
+        l = self.fresh("l_" + f)
+        env2 = env.set_field(f, "arg", "(AL %s)" % l)
+        env2.alias[f] = l
+        rest = self.listfields[1:]
+        saved, self.listfields = self.listfields, rest
+        try:
+            inner = self.with_listfields(env2, body)
+        finally:
+            self.listfields = saved
+        return "(match %s with\n | AL %s =>%s\n | _ => %s\n end)" % (env.fields[f][1], l, I(inner), self.r_exc(env, "Inexact"))
 
     # -- names ---------------------------------------------------------------------------------
     def fresh(self, base):
@@ -337,22 +397,40 @@ class Method:
         env2 = env.set_field(f, "arg", "(AL %s)" % l).set_local(name, "alist:" + f, l)
         return "(match %s with\n | AL %s =>%s\n | _ => %s\n end)" % (t, l, I(cont(env2)), self.r_exc(env, "Inexact"))
 
-    def element_call(self, sub, env, ctx, k, base):
-        """Pattern.value(x[i]), x the list held by self.f: one call on the element, whose new state goes back into the list"""
-        name = sub.value.id
-        ty, l = env.locals.get(name, ("", None))
-        if not ty.startswith("alist:") or self.mode != "next" or ctx.on_stop:
-            raise Reject("subscript of %s, which is not a list held by an attribute" % name)
-        f = ty.split(":", 1)[1]
+    def element_call(self, fnname, sub, env, ctx, k, base):
+        """Pattern.value(x[i]) / next(x[i]), x the list held by self.f (a local bound to it, or self.f itself): one call on
+        the element, whose new state goes back into the list"""
+        if self.mode != "next":
+            raise Reject("a call on a list element outside __next__")
+        if isinstance(sub.value, ast.Name):
+            name = sub.value.id
+            ty, _ = env.locals.get(name, ("", None))
+            if not ty.startswith("alist:"):
+                raise Reject("subscript of %s, which is not a list held by an attribute" % name)
+            f = ty.split(":", 1)[1]
+            cur = lambda e: e.locals[name][1]
+            upd = lambda e, l2: e.set_field(f, "arg", "(AL %s)" % l2).set_local(name, ty, l2)
+        else:
+            f = self.field(sub.value.attr)
+            if f not in env.alias:
+                raise Reject("subscript of self.%s, which is not used as a list throughout" % sub.value.attr)
+            cur = lambda e: e.alias[f]
+
+            def upd(e, l2):
+                e2 = e.set_field(f, "arg", "(AL %s)" % l2)
+                e2.alias[f] = l2
+                return e2
 
         def k1(ti, i, env1):
             if ti != "Z":
                 raise Reject("index of type %s: %s" % (ti, ast.unparse(sub)))
+            l = cur(env1)
             a, o, a2, x = self.fresh("item"), self.fresh("o"), self.fresh("item"), self.fresh(base)
             l2 = "(update_nth (py_index_pos %s %s) %s %s)" % (l, i, a2, l)
-            env2 = env1.set_field(f, "arg", "(AL %s)" % l2).set_local(name, ty, l2)
-            inner = "(let '(%s, %s) := pvalue %s %s in\n match %s with\n | Yield %s =>%s\n | _ => (%s, %s)\n end)" % (
-                o, a2, env1.fuel, a, o, x, I(k("val", x, env2)), o, self.st(env2))
+            env2 = upd(env1, l2)
+            stop = (" | Stop =>%s\n" % I(ctx.on_stop(env2))) if ctx.on_stop else ""
+            inner = "(let '(%s, %s) := %s %s %s in\n match %s with\n | Yield %s =>%s\n%s | _ => (%s, %s)\n end)" % (
+                o, a2, fnname, env1.fuel, a, o, x, I(k("val", x, env2)), stop, o, self.st(env2))
             return "(match py_index %s %s with\n | Some %s =>%s\n | None => %s\n end)" % (l, i, a, I(inner), self.r_exc(env1, "Raise IndexError"))
         return self.ev(sub.slice, env, ctx, k1)
 
@@ -384,6 +462,17 @@ class Method:
             return k("Z", "MAXSIZE", env)
         if isinstance(n, ast.List) and not n.elts:
             return k("list val", "[]", env)
+        if isinstance(n, ast.UnaryOp) and isinstance(n.op, ast.USub):
+            def km(ta, a, env1):
+                if ta != "Z":
+                    raise Reject("unary minus on a non-int: " + ast.unparse(n))
+                return k("Z", "(- %s)" % a, env1)
+            return self.ev(n.operand, env, ctx, km)
+        if (isinstance(n, ast.Subscript) and isinstance(n.value, ast.Name) and isinstance(n.ctx, ast.Load)
+                and env.locals.get(n.value.id, ("",))[0] == "val" and n.value.id in self.container):
+            # x[k] on a container VALUE (a dict / list value): py_getitem
+            return self.ev(n.slice, env, ctx, lambda tk, kk, env1: self.prim(
+                "(py_getitem %s %s)" % (env.locals[n.value.id][1], self.to_val(tk, kk)), env1, k, base, tail))
         if isinstance(n, ast.BinOp) and type(n.op) in PY_BINOP:
             def k1(ta, a, env1):
                 def k2(tb, b, env2):
@@ -441,8 +530,26 @@ class Method:
             if is_static(fn, "Pattern", "value") and "Pattern" not in self.local_names and len(n.args) == 1 and is_self_attr(n.args[0]):
                 return self.child_call("pvalue", n.args[0].attr, env, ctx, k, base)
             if (is_static(fn, "Pattern", "value") and "Pattern" not in self.local_names and len(n.args) == 1
-                    and isinstance(n.args[0], ast.Subscript) and isinstance(n.args[0].value, ast.Name)):
-                return self.element_call(n.args[0], env, ctx, k, base)
+                    and isinstance(n.args[0], ast.Subscript) and (isinstance(n.args[0].value, ast.Name) or is_self_attr(n.args[0].value))):
+                return self.element_call("pvalue", n.args[0], env, ctx, k, base)
+            if (isinstance(fn, ast.Name) and fn.id == "next" and "next" not in self.local_names and len(n.args) == 1
+                    and isinstance(n.args[0], ast.Subscript) and (isinstance(n.args[0].value, ast.Name) or is_self_attr(n.args[0].value))):
+                return self.element_call("pnext", n.args[0], env, ctx, k, base)
+            if (isinstance(fn, ast.Name) and fn.id == "len" and "len" not in self.local_names and len(n.args) == 1
+                    and is_self_attr(n.args[0]) and self.k.attr2field.get(n.args[0].attr) in env.alias):
+                return k("Z", "(zlen %s)" % env.alias[self.k.attr2field[n.args[0].attr]], env)
+            if (isinstance(fn, ast.Attribute) and fn.attr == "index" and isinstance(fn.value, ast.Name) and len(n.args) == 1
+                    and env.locals.get(fn.value.id, ("",))[0] == "val"):
+                return self.ev(n.args[0], env, ctx, lambda ta, a, env1: self.prim(
+                    "(py_list_index %s %s)" % (env.locals[fn.value.id][1], self.to_val(ta, a)), env1, k, base, tail))
+            if (self.mode != "next" and isinstance(fn, ast.Attribute) and fn.attr == "all" and is_self_attr(fn.value) and not n.args):
+                f = self.field(fn.value.attr)
+                ty, t = env.fields[f]
+                if ty != "arg" or t is None:
+                    raise Reject("self.%s.all(), but the model types the attribute %s" % (fn.value.attr, ty))
+                o, f2, x = self.fresh("o"), self.fresh("self_" + f), self.fresh(base)
+                return "(let '(%s, %s) := %s %s %s in\n obind %s (fun %s =>%s))" % (
+                    o, f2, self.use("pall"), env.fuel, t, o, x, I(k("list val", x, env.set_field(f, "arg", f2)), 1))
             if (isinstance(fn, ast.Name) and fn.id == "len" and "len" not in self.local_names and len(n.args) == 1
                     and isinstance(n.args[0], ast.Name) and env.locals.get(n.args[0].id, ("",))[0].startswith("alist:")):
                 return k("Z", "(zlen %s)" % env.locals[n.args[0].id][1], env)
@@ -512,6 +619,13 @@ class Method:
                 if ty != "val" or binds:
                     raise Reject("`is None` on a non-value: " + ast.unparse(n))
                 return ("pure", "(is_none %s)" % t if op is ast.Is else "(negb (is_none %s))" % t)
+            if op in (ast.In, ast.NotIn):
+                ta, a, b1 = self.pure_operand(l, env)
+                tb, b, b2 = self.pure_operand(r, env)
+                if tb != "val" or b1 or b2:
+                    raise Reject("`in` on something that is not a container value: " + ast.unparse(n))
+                ir = ("cmp", "(py_contains %s %s)" % (self.to_val(ta, a), b))
+                return ("not", ir) if op is ast.NotIn else ir
             if op in PY_CMP:
                 ta, a, b1 = self.pure_operand(l, env)
                 tb, b, b2 = self.pure_operand(r, env)
@@ -597,6 +711,11 @@ class Method:
             if (isinstance(tg, ast.Name) and tg.id in self.listlike and self.mode == "next" and isinstance(v, ast.Call) and not v.keywords
                     and is_static(v.func, "Pattern", "value") and "Pattern" not in self.local_names and len(v.args) == 1 and is_self_attr(v.args[0])):
                 return self.bind_list(tg.id, v.args[0].attr, env, cont)
+            if (isinstance(tg, ast.Name) and tg.id in self.container and self.mode == "next" and isinstance(v, ast.Call) and not v.keywords
+                    and is_static(v.func, "Pattern", "value") and "Pattern" not in self.local_names and len(v.args) == 1 and is_self_attr(v.args[0])):
+                if tg.id in self.listlike:
+                    raise Reject("%s is used both as the list of an attribute and as a container value" % tg.id)
+                return self.child_call("cvalue pvalue", v.args[0].attr, env, ctx, lambda ty, t, env1: cont(self.assign(tg, ty, t, env1)), "v_" + base)
             return self.ev(st.value, env, ctx, lambda ty, t, env1: cont(self.assign(tg, ty, t, env1)), base="v_" + base)
         if isinstance(st, ast.AugAssign) and type(st.op) in PY_BINOP and (isinstance(st.target, ast.Name) or is_self_attr(st.target)):
             load = ast.copy_location(ast.Name(st.target.id, ast.Load()), st.target) if isinstance(st.target, ast.Name) else \
@@ -616,6 +735,10 @@ class Method:
             if self.mode == "next":
                 if st.value is None:
                     return self.r_yield(env, "VNone")
+                v = st.value
+                if (isinstance(v, ast.Call) and not v.keywords and isinstance(v.func, ast.Name) and v.func.id == "next" and "next" not in self.local_names
+                        and len(v.args) == 1 and isinstance(v.args[0], ast.Name) and v.args[0].id == "self"):
+                    return "(%s %s %s)" % (self.use("pself"), env.fuel, self.st(env))        # return next(self)
                 return self.ev(st.value, env, ctx, lambda ty, t, env1: self.r_yield(env1, self.to_val(ty, t)), base="r",
                                tail=lambda o, env1: self.res(env1, o))
             if st.value is not None:
@@ -642,6 +765,20 @@ class Method:
                 def k(ty, t, env1):
                     return cont(env1.set_field(f, "list val", "(%s ++ [%s])" % (env1.fields[f][1], self.to_val(ty, t))))
                 return self.ev(c.args[0], env, ctx, k, base="v_item")
+            if (isinstance(c.func, ast.Attribute) and c.func.attr == "reset" and not c.args and is_self_attr(c.func.value)
+                    and not ctx.in_loop):
+                # self.f.reset(): the attribute must hold a pattern
+                f = self.field(c.func.value.attr)
+                ty, t = env.fields[f]
+                if ty != "arg" or t is None:
+                    raise Reject("self.%s.reset(), but the model types the attribute %s" % (c.func.value.attr, ty))
+                f2 = self.fresh("self_" + f)
+                env2 = env.set_field(f, "arg", f2)
+                if self.mode == "next":
+                    o = self.fresh("o")
+                    return "(match %s %s %s with\n | Yield %s =>%s\n | %s => %s\n end)" % (
+                        self.use("preset"), env.fuel, t, f2, I(cont(env2)), o, self.r_fail(env, o, False))
+                return "(obind (%s %s %s) (fun %s =>%s))" % (self.use("preset"), env.fuel, t, f2, I(cont(env2), 1))
             if (self.mode == "reset" and isinstance(c.func, ast.Attribute) and c.func.attr == "reset" and not c.args
                     and isinstance(c.func.value, ast.Call) and isinstance(c.func.value.func, ast.Name)
                     and c.func.value.func.id == "super" and not c.func.value.args and "super" not in self.local_names):
@@ -680,13 +817,16 @@ class Method:
                     raise Reject("self.reset() in __init__ before the pattern-valued attribute %s exists" % f)
                 t = defaults[ty]
             ts.append(t)
-        return "(src_%s_reset rp pvalue fuel %s)" % (self.k.name, " ".join(ts))
+        self.k.extras[self.mode] |= self.k.extras["reset"]
+        return "(src_%s_reset rp pvalue fuel%s %s)" % (self.k.name, extras_args(self.k.extras["reset"]), " ".join(ts))
 
     def loop(self, st, rest, env, ctx):
         self.nloops += 1
         if self.nloops > 4:
             raise Reject("too many loops")
         self.k.has_loops = True
+        if self.k.extras["next"]:
+            raise Reject("a loop in a method that also needs " + ", ".join(sorted(self.k.extras["next"])))
         name = "src_%s_next_loop%d" % (self.k.name, self.nloops)
         # a local that the body rebinds holds a Python value of any type from then on
         rebound = {n.id for b in st.body for n in ast.walk(b) if isinstance(n, ast.Name) and not isinstance(n.ctx, ast.Load)}
@@ -787,6 +927,7 @@ def translate_class(modules, ctors, fname, cname):
     check_class_body(chain)
     k = Klass()
     k.name, k.has_loops, k.reset_translated = cname, False, False
+    k.extras = {"next": set(), "reset": set(), "init": set()}
     if cname in BINOPS:
         k.ctor_name, fixed = "PBinOp", [BINOPS[cname]]
     else:
@@ -848,8 +989,8 @@ def translate_class(modules, ctors, fname, cname):
             k.base_of_reset = nxt[0].name if nxt else "Pattern"
             term = m.run(r[1].body, fields_env(), end)
             src = ast.unparse(r[1])
-        results["reset"] = (src, "Definition src_%s_reset (rp : pat -> outcome pat) (pvalue : nat -> arg -> outcome val * arg) (fuel : nat)\n"
-                                 "    %s : outcome pat :=%s." % (cname, sig_fields(), I(term, 2)))
+        results["reset"] = (src, "Definition src_%s_reset (rp : pat -> outcome pat) (pvalue : nat -> arg -> outcome val * arg) (fuel : nat)%s\n"
+                                 "    %s : outcome pat :=%s." % (cname, extras_sig(k.extras["reset"]), sig_fields(), I(term, 2)))
         k.reset_translated = True
     except Reject as e:
         results["reset"] = e
@@ -862,11 +1003,13 @@ def translate_class(modules, ctors, fname, cname):
             raise Reject("__next__ takes parameters")
         m = Method(k, "next", r[1])
         end = Ctx(on_end=lambda env: m.r_yield(env, "VNone"))
-        term = m.run(r[1].body, fields_env(), end)
+        term = m.with_listfields(fields_env(), lambda env: m.run(r[1].body, env, end))
         lf = " lfuel" if k.has_loops else ""
+        if k.has_loops and k.extras["next"]:
+            raise Reject("a loop in a method that also needs " + ", ".join(sorted(k.extras["next"])))
         results["next"] = (ast.unparse(r[1]), "\n".join(m.defs + [
             "Definition src_%s_next (bop : op -> val -> val -> outcome val) (pvalue pnext : nat -> arg -> outcome val * arg)\n"
-            "    (fuel%s : nat) %s : outcome val * pat :=%s." % (cname, lf, sig_fields(), I(term, 2))]))
+            "    (fuel%s : nat)%s %s : outcome val * pat :=%s." % (cname, lf, extras_sig(k.extras["next"]), sig_fields(), I(term, 2))]))
     except Reject as e:
         results["next"] = e
     # ---- __init__ ----
@@ -908,14 +1051,14 @@ def translate_class(modules, ctors, fname, cname):
         end = Ctx(on_end=lambda env: m.r_yield(env, None))
         term = m.run(fn.body, env, end)
         sig = " ".join("(p_%s : %s)" % (p, ptypes[p]) for p in params)
-        results["init"] = (ast.unparse(fn), "Definition src_%s_init (rp : pat -> outcome pat) (pvalue : nat -> arg -> outcome val * arg) (fuel : nat)\n"
-                                            "    %s : outcome pat :=%s." % (cname, sig, I(term, 2)))
+        results["init"] = (ast.unparse(fn), "Definition src_%s_init (rp : pat -> outcome pat) (pvalue : nat -> arg -> outcome val * arg) (fuel : nat)%s\n"
+                                            "    %s : outcome pat :=%s." % (cname, extras_sig(k.extras["init"]), sig, I(term, 2)))
     except Reject as e:
         results["init"] = e
     return k, results
 
 
-PRIMITIVES = ("value", "reset", "pattern", "__next__")
+PRIMITIVES = ("value", "reset", "pattern", "__next__", "all")
 PIN_FILE = os.path.join(HERE, "gen_tables_step.pin")
 
 
@@ -998,7 +1141,7 @@ def main(out_path):
     text = ("(* GENERATED by harness/gen_tables_step.py from the source text of isobar/pattern/{core,sequence,scalar}.py.  Do not edit.\n"
             "   Translation rules: see the docstring of the generator and docs/TRANSLATOR.md.  Tie-in: Pat/StepSrc.v.\n\n"
             "%s *)\n"
-            "From Isobar Require Import Base.Prelude Pat.Val Pat.Syntax Pat.Step.\n"
+            "From Isobar Require Import Base.Prelude Pat.Val Pat.Syntax Pat.Step Pat.SrcLib.\n"
             "From Coq Require Import String QArith.\n"
             "Open Scope Z_scope.\n\n%s" % ("\n".join("   " + comment(l) for l in lines), "\n".join(body)))
     for l in lines:
